@@ -29,11 +29,32 @@ def known_words():
                 if f.endswith((".py", ".json")) and f != "inline.py":
                     with open(os.path.join(d, f)) as fh:
                         text = fh.read()
+                    if f.endswith(".py"):
+                        # names reach the rules only through string literals: comments, docstrings and Python identifiers say nothing
+                        # about which functions a rule knows
+                        text = _string_literals(text)
                     # rule identifiers ("R6.terminal_score", "I4w.joins_writer") are names of obligations, not of functions
                     text = re.sub(r"\b[A-Z][A-Za-z0-9]{0,3}\.[a-z][a-z_0-9]*", " ", text)
                     words.update(re.findall(r"[A-Za-z_][A-Za-z0-9_]*", text))
         _vocab = words
     return _vocab
+
+
+def _string_literals(src):
+    """The text of the non-docstring string literals of a Python source."""
+    import io
+    import tokenize
+    out = []
+    try:
+        for tok in tokenize.generate_tokens(io.StringIO(src).readline):
+            if tok.type == tokenize.STRING:
+                t = tok.string
+                if t.lstrip("rRbBuUfF").startswith(('\"\"\"', "\'\'\'")):
+                    continue
+                out.append(t)
+    except (tokenize.TokenError, IndentationError):
+        return src
+    return "\n".join(out)
 
 
 def last_segment(name):
